@@ -101,13 +101,19 @@ pub fn strategy() -> BoxedStrategy<Case> {
 
 fn data_for(seed: u64, n: usize, kind: Kind) -> Vec<[f32; 3]> {
     let mut e = Expand(seed);
-    let style = e.below(4);
+    let style = e.below(5);
     (0..n)
         .map(|i| {
             let mut p = match style {
                 0 => [0.5f32; 3],                                      // bland: flat grey
                 1 => [(i as f32 + 1.0) / (n as f32 + 1.0); 3],         // grey ramp
                 2 => [e.range_f64(-0.25, 1.25) as f32, e.range_f64(-0.25, 1.25) as f32, e.range_f64(-0.25, 1.25) as f32],
+                4 => {
+                    // special values (NaN, infinities, huge, subnormal) mixed with in-range values
+                    let mut q = [e.unit() as f32, e.unit() as f32, e.unit() as f32];
+                    q[e.below(3) as usize] = f32::from_bits(*e.pick(&super::hist::SPECIAL_F32));
+                    q
+                }
                 _ => [e.unit() as f32, e.unit() as f32, e.unit() as f32],
             };
             if kind == Kind::Hsl {
